@@ -8,6 +8,13 @@ regenerated from /repo by go/extract/mapranges.go (go/packages + syntactic rules
 Sampled only: independence from process, GOMAXPROCS, start directory, and idempotence on a generated tree -
 repeated REAL generations (api.Generate via go/harness/c18, one process per run = fresh map seed), SHA-256 of
 every file must agree; plus the declaration order of the generated model file against the order model.
+
+Round 2: further project dimensions (checks/c18proj.py, corpus/C18): configuration x value-edge cycles between generated
+structs, bound Go packages with colliding package names, multi-key object constants. Regenerated: a collected slice
+must not be used before its sort call (mapranges.go; reviewed sites pinned by loop + source up to the sorts);
+`Gen/ResolverImports.lean` = the alias argument of (*File).Imports. Proved (Props/C18Regen.lean): modelgen's pointer
+pass runs on sorted input (and needs to); re-generation returns the import aliases of the previous output. Ties:
+pointer/value type of every struct field of models_gen.go vs `driver_c18 cyc`; `driver_c18 regen` on a grid.
 """
 import difflib
 import os
@@ -16,9 +23,10 @@ import shutil
 from collections import Counter
 from concurrent.futures import ThreadPoolExecutor
 
+from checks import c18proj
 from lib import vf
 
-INPUT_SUFFIXES = (".graphql", ".yml")
+INPUT_SUFFIXES = (".graphql", ".yml", "_src.go")     # *_src.go: hand-written Go packages bound through `models:`
 
 ORDER_PROJECT = """{dirs}
 scalar Time
@@ -113,9 +121,11 @@ def run(ctx):
         "classification of map-range sites is syntactic (go/extract/mapranges.go): calls made on right-hand sides / in conditions of a loop body are assumed not to leak the iteration order through shared state; `<value>.Name` is taken to be the loop's key; sites the rules cannot classify are accepted only through go/extract/mapranges_reviewed.json, pinned by the SHA-256 of the loop's source text",
         "Go's sort.Slice is modelled by a merge sort; on lists with pairwise distinct keys (GraphQL type names) every correct sort returns the same list",
         "maps ranged over by text/template are visited in sorted key order (text/template contract)",
+        "cycle-pass model (Model/CyclePass.lean): struct names are compared as Go names; templates.ToGo is the identity on the names the relations projects use",
+        "import-table model (Model/Imports.lean): the imports internal/rewrite reads back from an existing resolver file are a subset of the first rendering's table with the alias Import.String printed; tied to the real generator only by the bound-package projects (imports dimension)",
     ]
-    ok_extract = ctx.extract("Keywords", "MapRanges")
-    proved = ok_extract and ctx.prove(props=["GqlgenVerif.Props.C18"])
+    ok_extract = ctx.extract("Keywords", "MapRanges", "ResolverImports")
+    proved = ok_extract and ctx.prove(props=["GqlgenVerif.Props.C18", "GqlgenVerif.Props.C18Regen"])
     gen_file = os.path.join(vf.LEAN, "GqlgenVerif", "Gen", "MapRanges.lean")
     sites = []
     if os.path.exists(gen_file):
@@ -173,6 +183,24 @@ def run(ctx):
             projects.append(l.split("\t")[1])
         elif l.startswith("project\tc17d"):
             shutil.rmtree(os.path.join(root, l.split("\t")[1]), ignore_errors=True)
+    # further input dimensions (checks/c18proj.py): configuration x relationship structure of the generated models,
+    # bound Go packages with colliding package names, constants rendered into Go source; directed cases: corpus/C18
+    pkg_prefix = "verifharness/genout/c18"
+    meta = {}
+    prng = vf.Rng(ctx.seed * 1000003 + 1801)
+    for case, proj in c18proj.load_corpus(os.path.join(vf.VERIF, "corpus", "C18")):
+        name = "c18d_" + case
+        c18proj.write(root, name, proj, pkg_prefix)
+        meta[name] = proj["meta"]
+        projects.append(name)
+    for dim, gen, n in (("rel", c18proj.relations, 3 if quick else 12), ("imp", c18proj.imports, 4 if quick else 14),
+                        ("lit", c18proj.literals, 1 if quick else 4)):
+        for i in range(n):
+            name = "c18%s%d" % (dim, i)
+            proj = gen(prng, name) if dim != "rel" else gen(prng, name, always_false=i % 3 != 2)
+            c18proj.write(root, name, proj, pkg_prefix)
+            meta[name] = proj["meta"]
+            projects.append(name)
 
     # (GOMAXPROCS, start dir, wipe generated files first?)
     plan = [(1, "", True), (4, "res", False), (16, "sub/deep", True), (2, "sub", False)]
@@ -227,7 +255,11 @@ def run(ctx):
         branch["project:compared"] += 1
         nontriv.add(p)
         d = os.path.join(root, p)
-        inputs = {f: open(os.path.join(d, f)).read() for f in sorted(os.listdir(d)) if f.endswith(INPUT_SUFFIXES)}
+        inputs = {}
+        for r_, _, fs_ in os.walk(d):
+            for f in sorted(fs_):
+                if f.endswith(INPUT_SUFFIXES):
+                    inputs[os.path.relpath(os.path.join(r_, f), d)] = open(os.path.join(r_, f)).read()
         single_file_resolver = bool(re.search(r"^resolver:\n  filename:", inputs.get("gqlgen.yml", ""), re.M))
 
         def report(base, r, kind):
@@ -313,10 +345,76 @@ def run(ctx):
                                bytes.fromhex(pred[first]).decode() if first < len(pred) else None)},
                           no_failing_input=True)
 
+    # ------------------------------------------------------------ pointer decisions of modelgen vs the cycle-pass model
+    ptr_cmp = ptr_fields = 0
+    for p in projects:
+        m = meta.get(p, {})
+        if results[p][0] is None or not have_model or "models" not in m:
+            continue
+        line = "|".join("%s:%s" % (x["name"], ",".join("%s/%s/%s" % (f["name"], f["target"], "v" if f["val"] else "o") for f in x["fields"]))
+                        for x in m["models"])
+        pred = {}
+        for part in ctx.driver("c18", ["cyc " + line])[0].split(";"):
+            n, _, fs = part.partition(":")
+            pred[n] = dict(f.split("=") for f in fs.split(",") if f)
+        ptr_cmp += 1
+        for r in results[p][0]:
+            text = r.get("_text", {}).get("model/models_gen.go")
+            if text is None:
+                continue
+            for sm in re.finditer(r"^type (\w+) struct \{\n(.*?)^\}", text, re.M | re.S):
+                for fm in re.finditer(r"^\t\w+\s+(\S+)\s+`json:\"(\w+)", sm.group(2), re.M):
+                    want = pred.get(sm.group(1), {}).get(fm.group(2), "-")
+                    if want == "-":
+                        continue
+                    ptr_fields += 1
+                    if m.get("always_pointers"):
+                        want = "p"
+                    got = "p" if fm.group(1).startswith("*") else "v"
+                    if got != want:
+                        ctx.violation({"kind": "pointer-decision", "project": p, "struct": sm.group(1), "field": fm.group(2),
+                                       "generated_type": fm.group(1), "model": {"p": "pointer", "v": "value"}[want],
+                                       "input": {f: open(os.path.join(root, p, f)).read() for f in ("schema.graphql", "gqlgen.yml")},
+                                       "run": {k: v for k, v in r.items() if k in ("GOMAXPROCS", "start", "clean_tree")},
+                                       "shape": {"kind": "pointer-decision"},
+                                       "replay": "project %s (directory go/genout/c18/%s): models_gen.go declares %s.%s as %s; sorting the models by name and then "
+                                                 "running the cycle pass (Model/CyclePass.lean modelPointers, driver_c18 `cyc %s`) makes it a %s" % (
+                                                     p, p, sm.group(1), fm.group(2), fm.group(1), line[:200], {"p": "pointer", "v": "value"}[want])})
+                        break
+
+    # ------------------------------------------------------------ import aliases: first rendering vs re-generation (model, regenerated File.Imports)
+    regen_cases = 0
+    if have_model:
+        pk = [("zed/model", "model"), ("alpha/model", "model"), ("mid/modelpkg", "model"), ("yak/ast", "ast"), ("beta/types", "types"), ("fmt", "fmt")]
+        grng = vf.Rng(ctx.seed + 181818)
+        lines, cases = [], []
+        for i in range(40):
+            k = 2 + grng.below(4)
+            sel = c18proj.shuffle(grng, pk)[:k]
+            order = [x[0] for x in c18proj.shuffle(grng, sel + sel[:1])]
+            cases.append((sel, order))
+            lines.append("regen res %s %s" % (";".join("%s=%s" % x for x in sel), ";".join(order)))
+        cases.insert(0, (pk[:2], ["zed/model", "alpha/model"]))
+        lines.insert(0, "regen res zed/model=model;alpha/model=model zed/model;alpha/model")
+        for (sel, order), out in zip(cases, ctx.driver("c18", lines)):
+            regen_cases += 1
+            m = re.match(r"first=(\S*) second=(\S*)$", out)
+            if not m or m.group(1) != m.group(2):
+                ctx.violation({"kind": "import-alias-regeneration", "packages": dict(sel), "lookups_in_order_of_first_use": order,
+                               "aliases_first_generation": m.group(1) if m else out, "aliases_second_generation": m.group(2) if m else out,
+                               "shape": {"kind": "import-alias-regeneration"},
+                               "replay": "import table model with (*File).Imports as regenerated from plugin/resolvergen/resolver.go (Gen/ResolverImports.lean): "
+                                         "packages %s referenced in the order %s get the aliases %s on a clean tree and %s when generation runs again over that output "
+                                         "(driver_c18 `%s`); real project with this shape: corpus/C18/same_package_name" % (
+                                             dict(sel), order, m.group(1) if m else out, m.group(2) if m else out, lines[regen_cases - 1])})
+                break
+
     # ------------------------------------------------------------ broken proof
     if ok_extract and not proved:
-        if sensitive:
-            found = any(not nf for _, nf in ctx.violations)
+        found = any(not nf for _, nf in ctx.violations)
+        if found:
+            pass        # the concrete failing inputs above are the report
+        elif sensitive:
             if not found:
                 ctx.violation({"kind": "proof", "failing": ctx.proof_failure, "order_sensitive_sites": sensitive[:10],
                                "what": "a map range the rules cannot classify as order independent; %d real runs produced identical files" % total_runs,
@@ -328,9 +426,12 @@ def run(ctx):
 
     cls = Counter(s["class"] for s in sites)
     ctx.cov.update({
-        "evaluations": total_runs + order_cmp,
+        "evaluations": total_runs + order_cmp + ptr_cmp + regen_cases,
+        "pointer_decision_comparisons": {"projects": ptr_cmp, "struct_fields": ptr_fields},
+        "import_alias_regeneration_cases": regen_cases,
+        "project_dimensions": dict(Counter(meta[p]["dimension"] for p in projects if p in meta)),
         "distinct_nontrivial": len(nontriv),
-        "rule": "one evaluation = one real generation in its own process (fresh map seed) compared file-by-file (SHA-256) with the first run of the same project, or one declaration-order comparison against the order model under 4 permutations; non-trivial = each project (order-stress project with >8 types of every kind over 3 files, the exec probe, seeded random projects of the C17 grammar)",
+        "rule": "one evaluation = one real generation in its own process (fresh map seed) compared file-by-file (SHA-256) with the first run of the same project, or one declaration-order comparison against the order model under 4 permutations; or one project's struct fields compared with the cycle-pass model, or one import-alias regeneration case of the import-table model; non-trivial = each project (order-stress project with >8 types of every kind over 3 files, the exec probe, federation, seeded random projects of the C17 grammar, relations / imports / literals projects of checks/c18proj.py, corpus/C18)",
         "input_distribution": dict(branch),
         "map_range_sites": len(sites),
         "map_range_classes": dict(cls),
